@@ -37,6 +37,8 @@ inductive Filter where
 structure Handler where
   threshold : Int
   filter : Filter
+  /-- the sink's `stop()` raises (a fault the user's sink object may inject into `remove`) -/
+  stopFails : Bool := false
   deriving Repr
 
 /-- `no=` argument of `level()` -/
@@ -47,6 +49,8 @@ inductive NoArg where
 structure AddArgs where
   level : LevelArg
   filter : FilterArg
+  /-- the sink passed to `add` has a `stop()` method that raises `OSError` -/
+  stopFails : Bool := false
   deriving Repr
 
 inductive Op where
